@@ -6,7 +6,7 @@ EXPLANATION = (
     "through set_val and forwards raw/index; R2 on every enumerated path of set_val the stored expression has the provenance "
     "FORMAT -> SCALE -> RND(method=self.config.rounding) -> OVF -> CAST* -> STORE (complex: both components); R3 the conversion "
     "factor normalises to ite(raw, 1, 2^n_frac) on all branches; R4 the input normaliser's isinstance ladder covers every carrier "
-    "named in the statement and ends in raise; R5 no item-assignment into a possibly-immutable input container; plus the rounding "
+    "named in the statement and ends in raise; R5 no item-assignment into a possibly-immutable input container; R6 the value type used for the pre-scale cast never narrows the carrier (arrays typed by type(val.item(0)), float imposed only for None/strings/Decimal/scaled); plus the rounding "
     "table and clamp/wrap selection the stages rely on. Residual (declared, not decided): exactness of binary64/NumPy arithmetic "
     "for particular values, decimal-string parsing via float().")
 ASSUMPTIONS = ["NumPy rounding primitives and np.clip behave as in the lemma table",
@@ -20,5 +20,6 @@ def run(ck):
     pipeline.factor_rule(ck, "C01.R3")
     routes.carrier_ladder(ck, "C01.R4")
     routes.no_store_into_immutable(ck, "C01.R5")
+    routes.carrier_types(ck, "C01.R6")
     pipeline.rounding_table(ck, "C05.R1", "C05.R2", "C05.R3")
     pipeline.overflow_dispatch(ck, "C02.R6", "C03.R2", roles)
